@@ -797,6 +797,13 @@ pub fn run(args: &Args) -> i32 {
     run_set(args, set, "a deadlock with every notifier finished and the awaited condition made true is judged a lost wake-up")
 }
 
+/// C15, clause "sending resumes as soon as more is received or the address is validated": the
+/// anti-amplification waiter/notifier protocols (also part of C16), filed under C15.
+pub fn run_c15w(args: &Args) -> i32 {
+    let set: Vec<Sc> = scenarios().into_iter().filter(|s| s.name.starts_with("antiamplifier/")).collect();
+    run_set(args, set, "C15 (resume clause): a sender parked on an exhausted anti-amplification credit vs on_rcvd / grant / abort; a deadlock with the credit raised or the limit lifted is a lost wake-up")
+}
+
 pub fn run_c17a(args: &Args) -> i32 {
     let mut set = conn_state_scenarios();
     set.extend(crate::c16b::close_scenarios());
